@@ -16,7 +16,12 @@ FIELD_SWEEPS = [('fat', 'img:5.25in-ibm-ssdd8', FAT_REGIONS), ('fat', 'img:5.25i
 MORE_SWEEPS = [('prodos', 'po:3.5in-ss', [(1024, 2048)]), ('prodos', 'po:5.25in', [(1024, 2048), (6 * 512, 64)]), ('pascal', 'po:5.25in', [(1024, 2048)]),
                ('dos32', 'd13:5.25in-13', [(17 * 13 * 256, 256), (17 * 13 * 256 + 12 * 256, 256)]), ('dos33', 'do:5.25in', [(17 * 4096, 256), (17 * 4096 + 15 * 256, 256)]),
                ('cpm2', 'do:5.25in', [(3 * 4096, 1024)]), ('cpm3', 'do:5.25in', [(3 * 4096, 512)]), ('fat', 'img:5.25in-ibm-dsdd9', [(512, 64), (5 * 512, 512)]),
-               ('fat', 'img:3.5in-ibm-1440', [(512, 64), (19 * 512, 256)]), ('fat', 'img:5.25in-ibm-ssdd8', [(512, 64), (3 * 512, 256)])]
+               ('fat', 'img:3.5in-ibm-1440', [(512, 64), (19 * 512, 256)]), ('fat', 'img:5.25in-ibm-ssdd8', [(512, 64), (3 * 512, 256)]),
+               # container headers and track tables
+               ('dos33', 'woz2:5.25in', [(0, 1600)]), ('dos33', 'woz1:5.25in', [(0, 256)]), ('prodos', 'woz2:3.5in-ss', [(0, 1600)]), ('prodos', '2mg-do:5.25in', [(0, 64)]),
+               ('prodos', '2mg-po:3.5in-ss', [(0, 64)]), ('cpm2', 'imd:8in', [(0, 400)]), ('cpm2', 'td0:8in', [(0, 400)]), ('fat', 'imd:5.25in-ibm-dsdd9', [(0, 300)]),
+               ('fat', 'td0:5.25in-ibm-dsdd9', [(0, 300)]), ('cpm3', 'td0:5.25in-kayii', [(0, 300)]), ('cpm2', 'imd:5.25in-osb-sd', [(0, 300)]), ('dos32', 'd13:5.25in-13', [(0, 256)]),
+               ('pascal', 'po:5.25in', [(0, 1024), (3072, 1024)]), ('prodos', 'po:5.25in', [(3072, 512)]), ('cpm2', 'do:5.25in', [(0, 512)])]
 
 def le32(v):
     return bytes([v & 255, (v >> 8) & 255, (v >> 16) & 255, (v >> 24) & 255])
@@ -97,9 +102,11 @@ def run(ctx, model_ok=True):
             lines.append(f"malform m{k} meta {rng.randrange(1 << 30)} {lab}"); k += 1
     # single-field sweeps over the key structures of raw images (boot sector / BPB, FAT, volume headers, VTOC, directories)
     for fs, lab, regions in FIELD_SWEEPS + ([] if quick else MORE_SWEEPS):
-        for base, span in regions + ([] if quick else [(0, 2048)]):
+        for base, span in regions + ([] if quick or lab.split(':')[0] not in ('img', 'do', 'po') else [(0, 2048)]):
             for b in range(base, base + span, 16):
                 lines.append(f"malform m{k} fields {rng.randrange(1 << 30)} {fs} {lab} {b} {min(16, base + span - b)}"); k += 1
+    for lang in ['applesoft', 'integer', 'merlin']:
+        lines.append(f"malform m{k} tokfields 0 {lang}"); k += 1
     for proc in range(4):
         for mx in range(4):
             lines.append(f"dasmsweep s{k} {proc} {mx} {[0, 768, 65280][(proc + mx) % 3]}"); k += 1
